@@ -30,6 +30,11 @@ inductive Call : Type → Type where
   /-- `Update` whose conflict callback reads the clock itself (`HandleSuccess` calls `clock.Now()`):
   the callback is given the clock value at the call's commit -/
   | updateServerT (svr : Server) (res : Int → Resolver) : Call (Except RErr Server)
+  /-- the first storage command of `Filter`: the index reads (which addresses are selected) -/
+  | scanServers (fs : FilterSet) : Call (Except RErr (List Server))
+  /-- the second storage command of `Filter`: `HMGET` of the selected addresses — the records as they are *now*;
+  addresses removed in the meantime are skipped -/
+  | fetchServers (addrs : List Addr) : Call (Except RErr (List Server))
 
 /-- atomic effect of a call on the abstract state at clock value `now` (healthy storage) -/
 def Call.exec : {β : Type} → Call β → AbsState → Int → AbsState × β
@@ -46,6 +51,8 @@ def Call.exec : {β : Type} → Call β → AbsState → Int → AbsState × β
   | _, .enqueue p after before, s, t => (s.enqueue t p after before, .ok ())
   | _, .popMany n, s, t => let (s', ps, e) := s.popMany t n; (s', .ok (ps, e))
   | _, .updateServerT svr res, s, t => s.update t svr (res t)
+  | _, .scanServers fs, s, _ => (s, .ok (s.filter fs))
+  | _, .fetchServers addrs, s, _ => (s, .ok (addrs.filterMap fun a => (s.getRow a).map (·.svr)))
 
 /-- the reply a call gets when the storage fails (`none` for `now`, which cannot fail) -/
 def Call.faultReply : {β : Type} → Call β → Option β
@@ -62,6 +69,8 @@ def Call.faultReply : {β : Type} → Call β → Option β
   | _, .enqueue _ _ _ => some (.error .storage)
   | _, .popMany _ => some (.error .storage)
   | _, .updateServerT _ _ => some (.error .storage)
+  | _, .scanServers _ => some (.error .storage)
+  | _, .fetchServers _ => some (.error .storage)
 
 /-- calls that issue no storage command at all (not scheduling points): clock reads, an `enqueue` that
 is dropped because its ready time is not before its expiry, `PopMany` of a non-positive count -/
@@ -136,6 +145,8 @@ def _root_.Swat4.Call.name : {β : Type} → Call β → String
   | _, .enqueue _ _ _ => "enqueue"
   | _, .popMany _ => "popmany"
   | _, .updateServerT _ _ => "update"
+  | _, .scanServers _ => "scan"
+  | _, .fetchServers _ => "filter"
 
 /-- perform the leading silent calls (they are not scheduling points); fuel bounds the unfolding.
 Returns the names of the silent repository calls performed (clock reads excluded). -/
